@@ -107,24 +107,37 @@ pub struct Outcome {
     pub final_pos: usize,
 }
 
-/// Run the history. `track_fill`: derive the reader's buffer fill level from the
-/// recording backend (valid while no clone/seek happened) and record coverage.
+/// Run the history on a fresh reader. `track_fill`: derive the reader's buffer fill
+/// level from the recording backend (valid while no clone/seek happened) and record coverage.
 pub fn check(prop_tag: &str, c: &RCase, rep: &mut Report, track_fill: bool) -> Outcome {
     let e = c.cfg.e;
-    let zext = c.cfg.be.zext();
     let wbits = c.cfg.kind.word_bits();
     assert!(c.image.len() % (wbits / 8) == 0);
     let bits = bits_of_image(&c.image, e);
     let mut h = make_reader(c.cfg, &c.image);
-    let log = h.log.clone();
-    let mut pos: usize = 0;
-    let mut fill_valid = track_fill && log.is_some() && c.cfg.kind.buffered();
-    let mut parked: Vec<(Box<dyn DynReader>, usize)> = vec![];
-    let sigbase = format!("{}|{}|{}", e.name(), c.cfg.kind.name(), if zext { "zext" } else { "strict" });
-    let be_name = c.cfg.be.name();
+    let kv = || c.to_kv();
+    let out = run_ops(prop_tag, &mut h, &bits, 0, &c.ops, rep, track_fill, &kv);
+    if out.completed {
+        rep.sample(|| format!("{} ; final position {}", c.to_kv(), out.final_pos));
+    }
+    out
+}
 
-    for (i, op) in c.ops.iter().enumerate() {
-        let exp = match model_step(&bits, pos, e, zext, op) {
+/// Continue a history on an existing reader whose model position is `start`.
+#[allow(clippy::too_many_arguments)]
+pub fn run_ops(prop_tag: &str, h: &mut ReaderHandle, bits: &[u8], start: usize, ops: &[ROp], rep: &mut Report, track_fill: bool, case_kv: &dyn Fn() -> String) -> Outcome {
+    let cfg = h.cfg;
+    let e = cfg.e;
+    let zext = cfg.be.zext();
+    let wbits = cfg.kind.word_bits();
+    let log = h.log.clone();
+    let mut pos: usize = start;
+    let mut fill_valid = track_fill && log.is_some() && cfg.kind.buffered();
+    let mut parked: Vec<(Box<dyn DynReader>, usize)> = vec![];
+    let sigbase = format!("{}|{}|{}", e.name(), cfg.kind.name(), if zext { "zext" } else { "strict" });
+    let be_name = cfg.be.name();
+    for (i, op) in ops.iter().enumerate() {
+        let exp = match model_step(bits, pos, e, zext, op) {
             Some(x) => x,
             None => {
                 rep.count("ops_skipped_out_of_domain", 1);
@@ -151,14 +164,14 @@ pub fn check(prop_tag: &str, c: &RCase, rep: &mut Report, track_fill: bool) -> O
             l.budget = 64 + 4 * (need / wbits) as u64;
         }
         if let Some(f) = fill {
-            rep.cover(&format!("fill/{}/{}", e.name(), c.cfg.kind.name()), f as u64);
+            rep.cover(&format!("fill/{}/{}", e.name(), cfg.kind.name()), f as u64);
         }
         let n_of = match op {
             ROp::Read(n) | ROp::Peek(n) | ROp::Skip(n) | ROp::IoRead(n) => *n as u64,
             ROp::Seek(p) => *p % wbits as u64,
             _ => 0,
         };
-        rep.case(&(prop_tag, e, c.cfg.kind, be_name, fill.unwrap_or(usize::MAX), op.kind(), n_of));
+        rep.case(&(prop_tag, e, cfg.kind, be_name, fill.unwrap_or(usize::MAX), op.kind(), n_of));
         rep.eval(1);
         let fc = fill_class(fill, wbits);
         macro_rules! fail {
@@ -167,7 +180,7 @@ pub fn check(prop_tag: &str, c: &RCase, rep: &mut Report, track_fill: bool) -> O
                 rep.violation(
                     &format!("{}|{}|{}|fill-{}", sigbase, op.kind(), class, fc),
                     || format!("op #{} {} at bit {} (fill {:?}, backend {}): {}", i, op.to_string(), pos, fill, be_name, $what),
-                    || c.to_kv(),
+                    || case_kv(),
                 );
                 return Outcome { completed: false, final_pos: pos };
             }};
@@ -241,18 +254,17 @@ pub fn check(prop_tag: &str, c: &RCase, rep: &mut Report, track_fill: bool) -> O
             continue;
         }
         rep.eval(1);
-        let exp = get_bits_zext(&bits, p, n, e);
+        let exp = get_bits_zext(bits, p, n, e);
         let got = guard(|| r.read_bits(n));
         if got != Out::Ok(exp) {
             rep.violation(
                 &format!("{}|clone|original-disturbed|{}", sigbase, got.class()),
                 || format!("original reader cloned at bit {} later read {} expected {:#x}", p, got.show(), exp),
-                || c.to_kv(),
+                || case_kv(),
             );
             return Outcome { completed: false, final_pos: pos };
         }
     }
-    rep.sample(|| format!("{} ; final position {}", c.to_kv(), pos));
     Outcome { completed: true, final_pos: pos }
 }
 
